@@ -250,6 +250,14 @@ def build(ctx, ob, res, tag, extra_defines):
             res.status, res.detail = 'error', 'goto-instrument --dfcc failed:\n' + out[-3000:]
             return None
         cur = b
+    elif ob.mode == 'plain' and ob.drop_unused:
+        c = os.path.join(wd, 'a1.gb')
+        gi = ['goto-instrument', '--drop-unused-functions', cur, c]
+        rc, out, _ = run(gi, 300); res.cmds.append(' '.join(gi)); res.log += out
+        if rc != 0:
+            res.status, res.detail = 'error', 'goto-instrument --drop-unused-functions failed:\n' + out[-3000:]
+            return None
+        cur = c
     elif ob.mode == 'legacy':
         if ob.drop_unused:
             c = os.path.join(wd, 'a1.gb')
